@@ -1094,6 +1094,30 @@ func (r *vfC16Run) analyse() {
 	if len(r.srv.Dials()) > 1 {
 		cls["redial"] = true
 	}
+	if scn.Front != "" && len(reqs) > 0 {
+		// not an oracle (the property does not mention fronting): recorded so
+		// that the evidence shows the front argument was effective
+		front := scn.Front
+		if !strings.Contains(front, ":") {
+			front += ":80"
+		}
+		ok := true
+		for _, d := range r.srv.Dials() {
+			if d != "tcp!"+front {
+				ok = false
+			}
+		}
+		for _, q := range reqs {
+			if q.Host == scn.Front || q.Host == "" {
+				ok = false
+			}
+		}
+		if ok {
+			cls["front-on:dialed-front,Host=origin"] = true
+		} else {
+			cls["front-on:NOT-effective"] = true
+		}
+	}
 	if len(reqs) == 0 {
 		cls["no-request"] = true
 	}
@@ -1351,4 +1375,71 @@ func TestVerifC16Stream(t *testing.T) {
 		name = "stream(-race)"
 	}
 	vfC16Property(t, name)
+}
+
+// TestVerifC16ObservationCloseUnderBackpressure is NOT a check and is not
+// registered as a unit (it only logs; run it by hand with VERIF_C16_OBS=1).
+// It documents a behaviour next to the property: while nobody calls Read, a
+// Write that is blocked by back-pressure when Close is called stays blocked
+// (the worker is parked in `workerRdChan <- rdBuf`, which does not look at
+// workerCloseChan).  C16 only demands "Read fails after the received data has
+// been drained", and its scenarios always keep draining; see notes/C16.md.
+func TestVerifC16ObservationCloseUnderBackpressure(t *testing.T) {
+	if os.Getenv("VERIF_C16_OBS") == "" {
+		t.Skip("observation only; set VERIF_C16_OBS=1")
+	}
+	var plan []refmeek.Resp
+	for i := 0; i < 40; i++ {
+		plan = append(plan, refmeek.Resp{Size: 100})
+	}
+	srv := refmeek.New(plan, 1)
+	defer srv.Close()
+	cf, _ := (&Transport{}).ClientFactory("")
+	args := pt.Args{}
+	args.Add(urlArg, "http://meek.example.com/")
+	parsed, err := cf.ParseArgs(&args)
+	if err != nil {
+		t.Fatal(err)
+	}
+	conn, err := cf.Dial("tcp", "x:1", base.DialFunc(srv.Dial), parsed)
+	if err != nil {
+		t.Fatal(err)
+	}
+	time.Sleep(200 * time.Millisecond) // worker fills the read queue and parks
+	wrote := make(chan int, 1)
+	go func() {
+		n := 0
+		for i := 0; i < 40; i++ {
+			if _, err := conn.Write([]byte{byte(i)}); err != nil {
+				break
+			}
+			n++
+		}
+		wrote <- n
+	}()
+	time.Sleep(200 * time.Millisecond) // writer fills the write queue and parks
+	t.Logf("before Close: %d requests", srv.Count())
+	_ = conn.Close()
+	select {
+	case n := <-wrote:
+		t.Logf("writer returned after %d successful writes", n)
+	case <-time.After(3 * time.Second):
+		t.Logf("OBSERVATION: 3 s after Close the Write in progress is still blocked (nobody reads); requests so far %d", srv.Count())
+	}
+	buf := make([]byte, 4096)
+	total := 0
+	for {
+		n, err := conn.Read(buf)
+		total += n
+		if err != nil {
+			t.Logf("Read drained %d bytes, then failed with %v", total, err)
+			break
+		}
+	}
+	select {
+	case n := <-wrote:
+		t.Logf("after Read drained the queue the writer returned (%d successful writes)", n)
+	case <-time.After(3 * time.Second):
+		t.Logf("OBSERVATION: writer still blocked after draining")
+	}
 }
